@@ -440,7 +440,8 @@ def part_release_widths(ctx, eng):
     hi = 10000
     for fi_, fname in enumerate(wf):
         if fname not in RELEASE_WIDTHS:
-            raise Inconclusive('release widths: WidthHeuristics has a field %s the pinned release does not have' % fname)
+            ctx.notes.append('release widths: WidthHeuristics.%s does not exist in the pinned release: nothing to compare it with' % fname)
+            continue
         want = z3.fpToUBV(z3.RTZ(), z3.fpRoundToIntegral(z3.RNA(), z3.fpMul(rne, f(RELEASE_WIDTHS[fname]), ratio)), z3.BitVecSort(64))
         vio = []
         for o in outs:
